@@ -208,8 +208,10 @@ static int session() {
                 if (overrun(*tt, ent.getKey())) { std::cout << "OOR\n"; continue; }
                 tt->setBusy(ent, ply);
             }
-            std::cout << "R " << hx(ent.getKey()) << ' ' << hx(ent.getData()) << ' ' << bucketLine(*tt, key)
-                      << ' ' << bucketLine(*tt, ent.getKey()) << '\n';
+            std::cout << "R " << hx(ent.getKey()) << ' ' << hx(ent.getData()) << ' ' << bucketLine(*tt, key);
+            if (ent.getType() != TType::T_EMPTY)
+                std::cout << ' ' << bucketLine(*tt, ent.getKey());
+            std::cout << '\n';
         } else if (c == "IDX") {
             U64 key = rdU(is);
             std::cout << "I " << hx(tt->getIndex(key ^ tt->contemptHash)) << '\n';
